@@ -13,7 +13,8 @@
 (* Event "diff" = differential DoneMasks run on the real default networks: two identically seeded  *)
 (*   agents learn from batches differing only in next_obs of the rows in `pert`:                   *)
 (*   d (done flag per row, for this learner), same_loss, same_w (every weight of the learner's     *)
-(*   networks bit-equal after the step)                                                            *)
+(*   networks equal after the step; bit-equal, for RainbowDQN up to float32 rounding of the mass   *)
+(*   of the target distribution -- see vfw/drive/bellman.py run_diff)                              *)
 EXTENDS Bellman, Json, IOUtils, TLCExt
 CONSTANT Diag
 Traces == JsonDeserialize(IOEnv.TRACE_FILE)
@@ -64,8 +65,8 @@ TDiff ==
   /\ LET onlyDone == \A i \in 1..Len(Ev.pert) : Ev.d[Ev.pert[i]] = 1 IN
        /\ Check("DoneMasks: next_obs of rows marked done does not influence the loss", onlyDone => Ev.same_loss)
        /\ Check("DoneMasks: next_obs of rows marked done does not influence the updated weights", onlyDone => Ev.same_w)
-       /\ Check("Bootstraps: next_obs of a row not marked done influences the loss (gamma > 0)",
-                (~onlyDone /\ C.g2 > 0) => ~Ev.same_loss)
+       /\ Check("Bootstraps: next_obs of a row not marked done influences the update (gamma > 0)",
+                (~onlyDone /\ C.g2 > 0) => ~(Ev.same_loss /\ Ev.same_w))
   /\ l' = l + 1
   /\ UNCHANGED <<vars, tid>>
 
